@@ -127,6 +127,18 @@ def inRangeList : List Tlv → Bool
   | t :: ts => t.inRange && inRangeList ts
 end
 
+mutual
+/-- nesting depth: the number of constructed TLVs on the longest chain of containment (X.690 puts no
+    bound on it; `unber` walks at most `UNBER_MAX_NESTING_LEVEL` of them, one C stack frame each) -/
+def Tlv.depth : Tlv → Nat
+  | .prim _ _ _ _ => 0
+  | .cons _ _ _ ch => depthList ch + 1
+  | .indef _ _ ch => depthList ch + 1
+def depthList : List Tlv → Nat
+  | [] => 0
+  | t :: ts => max t.depth (depthList ts)
+end
+
 /-- the tag as printed in `T="…"`: class and number (`(number << 2) | class`) -/
 def tagOf (cls num : Nat) : Nat := num * 4 + cls
 
